@@ -135,30 +135,31 @@ func (o *hOpenID) Provider() openidconfig.Provider { return o.p }
 // ---------------------------------------------------------------- the stack
 
 type stackOpts struct {
-	redis         bool
-	sso           bool // main instance is an SSO server; a proxy instance shares the store
-	fwdAuth       bool
-	inactivity    time.Duration // 0 = off
-	maxLifetime   time.Duration
-	acr           string
-	proxyAcr      string
-	includeIDTok  bool
-	autoLogin     bool
-	ignorePaths   []string
-	updAtomic     bool
-	useSecret     bool
-	par           bool
-	issParam      bool
-	ingresses     []string
-	uiLocales     string
-	resource      string
-	rateLimit     *config.RateLimit
-	legacyCookie  bool
-	ssoDomain     string   // sso.domain of the server and the proxy ("" = "wonderwall")
-	singleReplica bool     // only one replica even over Redis
-	acrSupported  []string // provider metadata acr_values_supported (nil = the default list)
-	sidOptional   bool     // provider metadata does not advertise front-channel session support (C03)
-	audiences     []string // openid.audiences: extra trusted audiences (C03)
+	redis            bool
+	sso              bool // main instance is an SSO server; a proxy instance shares the store
+	fwdAuth          bool
+	inactivity       time.Duration // 0 = off
+	maxLifetime      time.Duration
+	acr              string
+	proxyAcr         string
+	includeIDTok     bool
+	autoLogin        bool
+	ignorePaths      []string
+	updAtomic        bool
+	useSecret        bool
+	par              bool
+	issParam         bool
+	ingresses        []string
+	uiLocales        string
+	resource         string
+	rateLimit        *config.RateLimit
+	legacyCookie     bool
+	ssoDomain        string   // sso.domain of the server and the proxy ("" = "wonderwall")
+	singleReplica    bool     // only one replica even over Redis
+	replica2ClientID string   // replica 2 is configured with this client id instead (configuration drift between replicas)
+	acrSupported     []string // provider metadata acr_values_supported (nil = the default list)
+	sidOptional      bool     // provider metadata does not advertise front-channel session support (C03)
+	audiences        []string // openid.audiences: extra trusted audiences (C03)
 	// C14/C17 (cookies.go, retry.go)
 	cookieSecure     bool   // cfg.Cookie.Secure
 	cookieSameSite   string // cfg.Cookie.SameSite ("" = Lax)
@@ -427,11 +428,19 @@ func newStack(o stackOpts) (*stack, error) {
 	s.mainRt = router.New(src, cfg)
 	if o.redis && !o.singleReplica {
 		// replica 2: everything per-process is separate, only the store (and its lock keys) is shared
-		h2, err := handler.NewStandalone(cfg, s.idp, s.oidc, s.crypter)
+		cfg2, oidc2 := cfg, s.oidc
+		if o.replica2ClientID != "" {
+			// configuration drift between replicas (a rolling change of the client id): replica 2 is configured with another client id
+			c2 := *cfg
+			c2.OpenID.ClientID = o.replica2ClientID
+			cfg2 = &c2
+			oidc2 = &hOpenID{c: &hClient{cfg: cfg2, method: s.oidc.c.method, key: s.oidc.c.key}, p: s.oidc.p}
+		}
+		h2, err := handler.NewStandalone(cfg2, s.idp, oidc2, s.crypter)
 		if err != nil {
 			return nil, err
 		}
-		h2.SessionManager = session.NewManagerWithStore(cfg, s.oidc, s.crypter, h2.Client, store)
+		h2.SessionManager = session.NewManagerWithStore(cfg2, oidc2, s.crypter, h2.Client, store)
 		h2.UpstreamProxy.Transport = s.up
 		var src2 router.Source = h2
 		if o.sso {
